@@ -359,7 +359,9 @@ def gen_fans(r, ncases):
     for _ in range(ncases):
         ops.append("#case fan")
         kind = r.pick(["hwmon", "hwmon", "hwmon", "file", "cmd"])
-        lim = lambda: r.pick([None, None, r.range(0, 255)])
+        # the ends of the range are configured values like any other (seed C13l: a configured limit equal to the getter's
+        # fallback - min 0, start 255, max 255 - was dropped as a "no-op override", so measurements replaced it)
+        lim = lambda: r.pick([None, None, None, r.range(0, 255), r.range(0, 255), 0, 255])
         ops.append(f"fan.new kind={kind} ns={r.below(2)} cmin={opt_tok(lim())} cstart={opt_tok(lim())} cmax={opt_tok(lim())}")
         for _ in range(r.range(1, 5)):
             k = r.below(5)
